@@ -137,11 +137,16 @@ def run(ctx: Ctx) -> None:
         p = ft.positional_params()[1]
         ok = unparse(ft.body[-1]) == f'return cls(*{p})' and 'classmethod' in ft.decorators()
         ctx.add('C06.R3', f'{cname}.from_tuple', ok, ft, 'from_tuple is cls(*tuple)' if ok else f'from_tuple: {unparse(ft.body[-1])}', unparse(ft.body[-1]))
+    from ..pattern import find, has
+
     for cname, one in (('NestsForNestedLogit', 'OneNestForNestedLogit'), ('NestsForCrossNestedLogit', 'OneNestForCrossNestedLogit')):
         c = prog.cls('nests', cname)
         init = c.methods['__init__']
-        txt = unparse(init.node)
-        ok = f'if not all((isinstance(elem, {one}) for elem in tuple_of_nests)):' in txt and f'tuple_of_nests = tuple(({one}.from_tuple(nest) for nest in tuple_of_nests))' in txt and 'super().__init__(choice_set, tuple_of_nests)' in txt
+        ok = has(init.node, f"""
+if not all((isinstance(_E, {one}) for _E in tuple_of_nests)):
+    tuple_of_nests = tuple(({one}.from_tuple(_N) for _N in tuple_of_nests))
+super().__init__(choice_set, tuple_of_nests)
+""")
         ctx.add('C06.R3', f'{cname}.__init__', ok, init, 'legacy tuples are converted element-wise, in order, before the base constructor runs' if ok else 'conversion of legacy tuples not in the expected form', 'init')
     from ..cfg import cfg_of
 
@@ -162,7 +167,12 @@ def run(ctx: Ctx) -> None:
         ctx.add('C06.R3', f'{name}:conversion', okc, f, f'legacy nests are converted with {cls}(choice_set=list({ut}), tuple_of_nests={np_})' if okc else f'conversion of legacy nests in {name} not in the expected form', unparse(conv[0]) if conv else 'missing')
         # conversion and validity check dominate every loop over nests
         loops = [n for n in walk_no_nested(f.node) if isinstance(n, ast.For) and unparse(n.iter) in (np_, f'{np_}.alone')]
-        chk = [n for n in walk_no_nested(f.node) if isinstance(n, ast.If) and unparse(n.test) == 'not ok' and any(isinstance(x, ast.Raise) for x in n.body)]
+        b = find(f.node, f"""
+_OK, _MSG = {np_}.{check}()
+if not _OK:
+    raise __ERR
+""")
+        chk = [n for n in walk_no_nested(f.node) if b and isinstance(n, ast.If) and unparse(n.test) == f'not {b["_OK"]}' and any(isinstance(x, ast.Raise) and 'BiogemeError' in unparse(x) for x in n.body)]
         chk_call = [n for n in walk_no_nested(f.node) if isinstance(n, ast.Assign) and isinstance(n.value, ast.Call) and unparse(n.value.func) == f'{np_}.{check}']
         okd = bool(loops) and len(chk) == 1 and len(chk_call) == 1
         if okd and conv:
